@@ -62,6 +62,8 @@ def general_graph(rnd, max_nodes=7, bnodes=True, rich_literals=True, inst_prop=M
     blabel = (lambda i: ["b1", "b12", "b1x", "b", "b120", "n7", "n70"][i]) if rnd.random() < .3 else (lambda i: "b%d" % i)   # labels that are prefixes of one another
     nodes = [M.iri(EX + name(i)) if (not bnodes or rnd.random() < 0.78) else M.bnode(blabel(i)) for i in range(nn)]
     classes = [EX + "C%d" % i for i in range(rnd.randint(1, 3))]
+    if rnd.random() < .12:      # distinct local names that differ only in '-', '_', '.' (all legal in a prefixed name)
+        classes = [EX + n for n in ["K-1", "K_1", "K.1"][:len(classes)]]
     props = [EX + "p%d" % i for i in range(rnd.randint(1, 3))]
     if rich_literals and rnd.random() < .15:      # IRIs are not only ASCII letters: percent-escapes and non-ASCII characters
         props.append(EX + rnd.choice(["caf%C3%A9", "a\u00f1o", "t\u00eate%20x"]))
@@ -211,6 +213,10 @@ def schema_graph(rnd, bnodes=True, inverse_safe=False):
                 if rng[0] == "lit" or (litmix and rnd.random() < .5):
                     for _ in range(rnd.choice([1, 1, 2])):
                         T.add((n, p, _lit(rnd)))
+    # the classes themselves described in the data (typed with a meta-class): with all-classes mode they are instances too
+    if rnd.random() < .3:
+        for c in classes:
+            T.add((M.iri(c), M.RDF_TYPE, M.iri(EX + "Kind")))
     # a node may link to itself: such a triple is an outgoing and an incoming arc of the same node
     selfp = sorted({(c, p) for (c2, p), c in used_as_range.items() if c2 == c})
     if selfp and rnd.random() < .7:
